@@ -7,6 +7,7 @@
 (***************************************************************************)
 EXTENDS SebufSchema, SequencesExt
 
+TS == "google.protobuf.Timestamp"
 Pkg(P)   == P \o ".v1"
 GoPkg(P) == "scratch/gen/" \o P \o ";" \o P
 FN(P, n) == Pkg(P) \o "." \o n          \* full name of a top-level message
@@ -362,7 +363,7 @@ C13MethodCase(P, t) ==
 
 \* identifier shapes and service layouts
 C13Shapes == {"names", "keywords", "two_services_same_method", "two_services_headers", "no_services", "cross_file",
-              "nested_annotated", "oneof_members", "acronym_method"}
+              "nested_annotated", "oneof_members", "acronym_method", "two_service_files"}
 C13ShapeCase(P, sh) ==
   LET do(in, out) == Method("Do", in, out, TRUE, Parts(TRUE, <<Lit("do")>>, FALSE), "POST")
       one(msgs, ms) == Schema(<<File(P \o "/svc.proto", Pkg(P), GoPkg(P), TRUE, <<>>, <<Svc(P, ms)>>, <<Out(P), Child(P), Child2(P)>> \o msgs, <<EnumE, EnumPlain>>)>>)
@@ -389,6 +390,11 @@ C13ShapeCase(P, sh) ==
                                                 <<MethodHeaders(Method("Other", FN(P, "In"), FN(P, "Out"), TRUE, Parts(TRUE, <<Lit("o")>>, FALSE), "GET"),
                                                                 <<Header("X-API-Key", "string", "", TRUE), Header("X-Request-ID", "string", "uuid", FALSE)>>)>>), H3)>>,
                           <<Msg("In", FN(P, "In"), <<Ann(F("id", "id", 1, "string", "one"), "query", TRUE)>>), Out(P)>>, <<>>)>>)
+       [] sh = "two_service_files" ->   \* one Go package made of two files, each declaring a service
+            Schema(<<File(P \o "/svc.proto", Pkg(P), GoPkg(P), TRUE, <<>>, <<Svc(P, <<do(FN(P, "In"), FN(P, "Out"))>>)>>, <<In(P), Out(P)>>, <<>>),
+                     File(P \o "/more.proto", Pkg(P), GoPkg(P), TRUE, <<P \o "/svc.proto">>,
+                          <<Service("Second", TRUE, Parts(TRUE, <<Lit("second")>>, FALSE),
+                                    <<Method("Other", FN(P, "In"), FN(P, "Out"), TRUE, Parts(TRUE, <<Lit("o")>>, FALSE), "POST")>>)>>, <<>>, <<>>)>>)
        [] sh = "no_services" ->
             Schema(<<File(P \o "/svc.proto", Pkg(P), GoPkg(P), TRUE, <<>>, <<>>,
                           <<Child(P), Msg("W", FN(P, "W"), <<Ann(F("n", "n", 1, "int64", "one"), "int64", "NUMBER"), FRef("e", "e", 2, "enum", "one", FN(P, "E"))>>),
@@ -465,6 +471,61 @@ C03Case(P, base, pkgDiff) ==
                    <<[Out(P) EXCEPT !.full = full("Out")]>> \o [i \in 1..Len(ds) |-> rq(ds[i])], <<>>)>>)
 
 (***************************************************************************)
+(* C20: response fields of every kind and cardinality, with and without    *)
+(* example lists, flat / nested / map value / recursive, several services. *)
+(***************************************************************************)
+MockKinds == {"string", "int32", "int64", "uint32", "uint64", "sint32", "sint64", "fixed32", "fixed64", "sfixed32", "sfixed64",
+              "bool", "float", "double", "enum", "bytes", "ts", "msg"}
+MockCards == {"one", "opt", "rep", "map", "oneof", "oneof2"}
+ExSets == {"none", "parsable", "mixed", "unparsable", "awkward", "range"}
+IntKinds == {"int32", "int64", "uint32", "uint64", "sint32", "sint64", "fixed32", "fixed64", "sfixed32", "sfixed64"}
+ExamplesFor(k, ex) ==
+  IF ex = "none" \/ k \in {"bytes", "ts", "msg"} THEN <<>> ELSE
+  LET good == CASE k = "string" -> <<"alpha", "beta">> [] k \in IntKinds -> <<"41", "43">>
+                [] k = "bool" -> <<"true", "true">> [] k \in {"float", "double"} -> <<"1.5", "2.25">> [] k = "enum" -> <<"P_A", "P_A">>
+      bad  == <<"not-a-value", "12x">>
+      \* awkward: strings a Go string literal has to escape; range: values only the wider type of the same family holds
+      awkward == <<"say \"hi\"", "back\\slash">>
+      range == CASE k \in {"int32", "sint32", "sfixed32"} -> <<"99999999999", "7">> [] k \in {"uint32", "fixed32"} -> <<"-5", "4294967296", "7">>
+                 [] k \in {"uint64", "fixed64"} -> <<"-5", "18446744073709551615">> [] k = "float" -> <<"1e300", "0.5">> [] OTHER -> good
+  IN CASE ex = "parsable" -> good [] ex = "mixed" -> good \o bad [] ex = "unparsable" -> (IF k = "string" THEN good ELSE bad)
+       [] ex = "awkward" -> (IF k = "string" THEN awkward ELSE good) [] ex = "range" -> range
+MockField(P, k, c, ex) ==
+  LET kind == CASE k = "ts" -> "message" [] k = "msg" -> "message" [] OTHER -> k
+      ref == CASE k = "ts" -> TS [] k = "msg" -> FN(P, "Child") [] k = "enum" -> FN(P, "P") [] OTHER -> ""
+      base == CASE c = "map" -> FMap("v", "v", 1, "string", kind, ref)
+                [] c \in {"oneof", "oneof2"} -> InOneof(FRef("v", "v", 1, kind, "one", ref), "o")
+                [] OTHER -> FRef("v", "v", 1, kind, c, ref)
+  IN [base EXCEPT !.ann.examples = ExamplesFor(k, ex)]
+MockNestings == {"flat", "nested", "mapvalue", "recursive", "two_services", "protonested", "imported"}
+C20Case(P, k, c, ex, nest) ==
+  LET f == MockField(P, k, c, ex)
+      do(out) == Method("Do", FN(P, "In"), out, TRUE, Parts(TRUE, <<Lit("do")>>, FALSE), "POST")
+      one(msgs, out) == Schema(<<File(P \o "/svc.proto", Pkg(P), GoPkg(P), TRUE, <<>>, <<Svc(P, <<do(out)>>)>>, <<In(P), Child(P)>> \o msgs, <<EnumPlain>>)>>)
+      other == InOneof(FRef("w", "w", 5, "message", "one", FN(P, "Child")), "o")
+      ofields == IF c = "oneof" THEN <<f, other>> ELSE <<other, f>>   \* oneof2: the field under test is the second member
+  IN CASE nest = "flat" /\ c \in {"oneof", "oneof2"} ->
+            one(<<MsgO("R", FN(P, "R"), ofields \o <<F("label", "label", 2, "string", "one")>>, <<Oneof("o", FALSE, "", FALSE)>>)>>, FN(P, "R"))
+       [] nest = "flat"     -> one(<<Msg("R", FN(P, "R"), <<f, F("label", "label", 2, "string", "one")>>)>>, FN(P, "R"))
+       [] nest = "protonested" ->
+            one(<<MsgN("R", FN(P, "R"), <<FRef("inner", "inner", 1, "message", "one", FN(P, "R.Inner")), [F("v", "v", 2, "string", "one") EXCEPT !.ann.examples = <<"outer">>]>>,
+                       <<Msg("Inner", FN(P, "R.Inner"), <<f>>)>>),
+                  \* a second message with the same short name as the nested one and other examples
+                  Msg("Inner", FN(P, "Inner"), <<[F("v", "v", 1, "string", "one") EXCEPT !.ann.examples = <<"decoy">>]>>)>>, FN(P, "R"))
+       [] nest = "imported" ->
+            Schema(<<File(P \o "/types.proto", Pkg(P), GoPkg(P), TRUE, <<>>, <<>>, <<Msg("Inner", FN(P, "Inner"), <<f>>), Child(P)>>, <<EnumPlain>>),
+                     File(P \o "/svc.proto", Pkg(P), GoPkg(P), TRUE, <<P \o "/types.proto">>, <<Svc(P, <<do(FN(P, "R"))>>)>>,
+                          <<In(P), Msg("R", FN(P, "R"), <<FRef("inner", "inner", 1, "message", "one", FN(P, "Inner"))>>)>>, <<>>)>>)
+       [] nest = "nested"   -> one(<<Msg("Inner", FN(P, "Inner"), <<f>>), Msg("R", FN(P, "R"), <<FRef("inner", "inner", 1, "message", "one", FN(P, "Inner"))>>)>>, FN(P, "R"))
+       [] nest = "mapvalue" -> one(<<Msg("Inner", FN(P, "Inner"), <<f>>), Msg("R", FN(P, "R"), <<FMap("by", "by", 1, "string", "message", FN(P, "Inner"))>>)>>, FN(P, "R"))
+       [] nest = "recursive" -> one(<<Msg("R", FN(P, "R"), <<f, FRef("next", "next", 2, "message", "one", FN(P, "R")), FMap("kids", "kids", 3, "string", "message", FN(P, "R"))>>)>>, FN(P, "R"))
+       [] nest = "two_services" ->
+            Schema(<<File(P \o "/svc.proto", Pkg(P), GoPkg(P), TRUE, <<>>,
+                          <<Svc(P, <<do(FN(P, "R"))>>), Service("Second", TRUE, Parts(TRUE, <<Lit("second")>>, FALSE),
+                                                             <<Method("Other", FN(P, "In"), FN(P, "R"), TRUE, Parts(TRUE, <<Lit("o")>>, FALSE), "GET")>>)>>,
+                          <<Msg("In", FN(P, "In"), <<Ann(F("id", "id", 1, "string", "one"), "query", TRUE)>>), Child(P), Msg("R", FN(P, "R"), <<f>>)>>, <<EnumPlain>>)>>)
+
+(***************************************************************************)
 (* C18: document-level shapes.                                             *)
 (***************************************************************************)
 C18Shapes == {"same_named_nested", "multi_service", "imported_msgs", "path_and_query", "headers"}
@@ -515,7 +576,6 @@ C18Case(P, sh) ==
 (***************************************************************************)
 Constructs == {"kinds", "wkt", "wkt2", "int64num", "enumcustom", "enumnum", "nullable", "empty", "ts", "bytes", "oneof", "oneofflat", "flatten",
                "flattenprefix", "unwraplist", "unwrapmap", "multiword", "int64rep", "plain"}
-TS == "google.protobuf.Timestamp"
 \* the annotated message A (and the helper messages it needs)
 ConstructMsgs(P, c) ==
   LET a(fs) == Msg("A", FN(P, "A"), fs)
